@@ -181,7 +181,7 @@ def expected_3d(V, op, grid_of=None):
 def expected_2d(V, op):
     name, a = op[0], op[1]
     if name == 'get_trace':
-        return V[a[0]] if len(a) < 3 else V[a[0], a[1]:a[2]]
+        return V[a[0]] if len(a) < 2 else V[a[0], (a[1] or 0):] if len(a) < 3 else V[a[0], (a[1] or 0):a[2]]
     if name == 'read_subplane':
         return V[a[0]:a[1], a[2]:a[3]]
     raise KeyError(name)
